@@ -61,12 +61,15 @@ def _items(tier):
                 items.append(("matrix", g, d))
         else:
             for d in range(arity, D + 1):
-                items.append(("sim", g, d))
+                n = _nchunks(_cost(("sim", g, d, 0, 1), tier))
+                items += [("sim", g, d, c, n) for c in range(n)]
     for d in range(1, D + 1):
-        items.append(("disp", d))
+        n = _nchunks(_cost(("disp", d, 0, 1), tier))
+        items += [("disp", d, c, n) for c in range(n)]
     for which in ("Fourier", "Beamsplitter5050", "MachZehnder", "Squeezing2"):
         for d in range(1 if which == "Fourier" else 2, D + 1):
-            items.append(("ident", which, d))
+            n = _nchunks(_cost(("ident", which, d, 0, 1), tier))
+            items += [("ident", which, d, c, n) for c in range(n)]
     seq_d = (2, 3) if tier == "quick" else (2, 3, 4)
     for d in seq_d:
         n = len(_seq_alphabet(d))
@@ -76,20 +79,24 @@ def _items(tier):
     return items
 
 
+def _nchunks(cost):
+    return max(1, min(13, -(-cost // 12000)))
+
+
 def _cost(item, tier):
     """rough number of simulator executions of an item (only used to order the work list)"""
     kind = item[0]
     perms = lambda d, k: math.perm(d, k)  # noqa: E731
     if kind == "sim":
         arity, pn = GATES[item[1]]
-        return 13 ** len(pn) * perms(item[2], arity) * 24
+        return 13 ** len(pn) * perms(item[2], arity) * 24 // item[4]
     if kind == "matrix":
         return sum(6 * min(perms(item[2], k), 24) for k in range(1, item[2] + 1)) * 24
     if kind == "disp":
-        return item[1] * 195 * 24
+        return item[1] * 195 * 24 // item[3]
     if kind == "ident":
         arity, pn = GATES[item[1]]
-        return 13 ** len(pn) * perms(item[2], arity) * 8 * 5
+        return 13 ** len(pn) * perms(item[2], arity) * 8 * 5 // item[4]
     if kind == "seq":
         return len(_seq_alphabet(item[1])) * 3 * (item[1] if tier == "thorough" else 2) * 8 * 3
     return 0
@@ -100,7 +107,9 @@ def run(ctx, builddir):
 
     items = _items(ctx.tier)
     if getattr(ctx, "only", None):
-        items = [it for it in items if it[0] == ctx.only or (len(it) > 1 and it[1] == ctx.only)]
+        # development filter: comma-separated tokens "kind", "gate", "kind:gate", "kind:gate:d", "kind:d" or the full item "kind:gate:d:chunk:nchunks"
+        toks = ctx.only.split(",")
+        items = [it for it in items if any(t in toks for t in (it[0], str(it[1]) if len(it) > 1 else "", ":".join(map(str, it[:2])), ":".join(map(str, it[:3])), ":".join(map(str, it))))]
     ctx.rule = (
         "every gate class with _get_passive_block x 13-point lattice per real parameter (full grid for 2 parameters; "
         "named matrix catalogue for Interferometer/GaussianTransform) x every ordered mode tuple on d<=%d x hbar in "
@@ -174,7 +183,9 @@ def _viol(ctx, item, sig, key, msg, recheck=None):
 def _same(a, b):
     if isinstance(a, (tuple, list)):
         return len(a) == len(b) and all(_same(x, y) for x, y in zip(a, b))
-    return np.array_equal(np.asarray(a), np.asarray(b), equal_nan=True)
+    a, b = np.asarray(a), np.asarray(b)
+    # equal up to last-bit noise (LAPACK results depend on buffer alignment); a real nondeterminism is O(1)
+    return a.shape == b.shape and bool(np.allclose(a, b, rtol=1e-9, atol=1e-12, equal_nan=True))
 
 
 def _want(ctx, key):
@@ -185,17 +196,19 @@ def _want(ctx, key):
     return isinstance(f, list) and isinstance(key, list) and f[: len(key)] == key
 
 
-def _grid(names):
+def _grid(names, c=0, n=1):
+    """the full tensor lattice of the named parameters; [c::n] = chunk c of n (work split only)"""
     from mc.c07_gauss import LATTICE
 
-    return [dict(zip(names, vals)) for vals in itertools.product(LATTICE, repeat=len(names))]
+    return [dict(zip(names, vals)) for vals in itertools.product(LATTICE, repeat=len(names))][c::n]
 
 
-def _code_blocks(name, params, hbar=2.0):
+def _code_blocks(name, params, hbar=2.0, seed=0):
     """(P, A) as produced by the gate class under test"""
     import piquasso as pq
+    from mc.c07_gauss import resolve_param
 
-    g = getattr(pq, name)(**params)
+    g = getattr(pq, name)(**{k: resolve_param(v, seed) for k, v in params.items()})
     if hbar not in _CC:
         _CC[hbar] = (pq.NumpyConnector(), pq.Config(hbar=hbar))
     conn, cfg = _CC[hbar]
@@ -375,13 +388,13 @@ def _w_sim(ctx, item):
     from mc import c07_gauss as H
     from mc.refmodel import gaussref as R
 
-    _, name, d = item
+    _, name, d, chunk, nchunks = item
     arity, pnames = GATES[name]
     prepared = _prepare(d, ctx.seed)
     _check_bases(ctx, item, d, prepared)
     tuples = H.ordered_tuples(d, arity)
     n = 0
-    for params in _grid(pnames):
+    for params in _grid(pnames, chunk, nchunks):
         P, A = _code_blocks(name, params)
         for modes in tuples:
             key = [[params[p] for p in pnames], list(modes)]
@@ -394,7 +407,7 @@ def _w_sim(ctx, item):
             _compare_run(ctx, item, d, [(name, modes, params)], prepared, S, None, sig, key, ("sim", name, str(key), d) if nontrivial else None)
             n += 1
             ctx.count("programs")
-    ctx.sample({"kind": "sim", "gate": name, "d": d, "parameter_points": len(_grid(pnames)), "ordered_tuples": [list(t) for t in tuples][:6], "programs": n})
+    ctx.sample({"kind": "sim", "gate": name, "d": d, "chunk": [chunk, nchunks], "parameter_points": len(_grid(pnames, chunk, nchunks)), "ordered_tuples": [list(t) for t in tuples][:6], "programs": n})
 
 
 def _w_matrix(ctx, item):
@@ -408,9 +421,6 @@ def _w_matrix(ctx, item):
         params = {p: H.resolve_param(v, ctx.seed) for p, v in tpl.items()}
         P, A = _code_blocks(name, params)
         tuples = H.ordered_tuples(d, k)
-        if ctx.tier == "quick" and len(tuples) > 24:
-            # k >= 3 on d = 4: all ordered tuples whose first entry is 0 or the maximum + every cyclic shift
-            tuples = [t for t in tuples if t[0] in (0, d - 1) or list(t) == sorted(t) or list(t) == sorted(t, reverse=True)]
         for modes in tuples:
             key = [[k, mkey], list(modes)]
             if not _want(ctx, key):
@@ -422,7 +432,6 @@ def _w_matrix(ctx, item):
             _compare_run(ctx, item, d, [(name, modes, tpl)], prepared, S, None, sig, key, ("matrix", name, str(key), d) if nontrivial else None)
             n += 1
             ctx.count("programs")
-        # Interferometer on all modes without explicit modes
     ctx.sample({"kind": "matrix", "gate": name, "d": d, "programs": n})
 
 
@@ -434,12 +443,12 @@ def _w_disp(ctx, item):
     from mc import c07_gauss as H
     from mc.refmodel import gaussref as R
 
-    _, d = item
+    _, d, chunk, nchunks = item
     prepared = _prepare(d, ctx.seed)
     I = np.identity(2 * d)
     n = 0
     for mode in range(d):
-        for r, phi in itertools.product(H.LATTICE, repeat=2):
+        for r, phi in list(itertools.product(H.LATTICE, repeat=2))[chunk::nchunks]:
             key = ["Displacement", [r, phi], mode]
             if not _want_prefix(ctx, key):
                 continue
@@ -450,7 +459,7 @@ def _w_disp(ctx, item):
                 {"sub": "displacement_shift", "gate": "Displacement"}, key, ("disp", str(key), d) if abs(alpha) > 1e-6 else None,
             )
             n += 1
-        for x in H.LATTICE:
+        for x in H.LATTICE[chunk::nchunks]:
             for gname, alpha, pname in (("PositionDisplacement", complex(x, 0), "x"), ("MomentumDisplacement", complex(0, x), "p")):
                 key = [gname, [x], mode]
                 if not _want_prefix(ctx, key):
@@ -502,13 +511,13 @@ def _ident_programs(which, params, modes):
     raise KeyError(which)
 
 
-def _program_S(templates, d):
+def _program_S(templates, d, seed=0):
     """ladder transformation of a program from the CODE's own blocks: product in reverse time order"""
     from mc.refmodel import gaussref as R
 
     Sc = np.identity(2 * d, dtype=complex)
     for name, modes, params in templates:
-        P, A = _code_blocks(name, params)
+        P, A = _code_blocks(name, params, seed=seed)
         Pf, Af = R.embed(P, A, modes, d)
         Sc = R.complex_S(Pf, Af) @ Sc
     return Sc
@@ -518,14 +527,14 @@ def _w_ident(ctx, item):
     from mc import c07_gauss as H
     from mc.refmodel import gaussref as R
 
-    _, which, d = item
+    _, which, d, chunk, nchunks = item
     arity, pnames = GATES[which]
     prepared = _prepare(d, ctx.seed)
     # the identity programs are executed from 2 base states per hbar (coherent + mixed): the
     # per-gate action on all 6 is covered by the `sim` items
     prepared = [p for p in prepared if p[1] in ("displaced", "mixed_correlated_displaced")]
     n = 0
-    for params in _grid(pnames):
+    for params in _grid(pnames, chunk, nchunks):
         for modes in H.ordered_tuples(d, arity):
             key = [[params[p] for p in pnames], list(modes)]
             if not _want(ctx, key):
@@ -604,14 +613,14 @@ def _w_seq(ctx, item):
     g1 = alpha[first]
     prepared = _prepare(d, ctx.seed)
     prepared = [p for p in prepared if p[1] in ("squeezed_displaced", "mixed_correlated_displaced")]
-    if ctx.tier == "quick":
+    if ctx.tier == "quick" or d >= 4:
         prepared = [p for p in prepared if p[1] == "mixed_correlated_displaced"]
     r, phi = 0.4, 0.6
     al = r * complex(math.cos(phi), math.sin(phi))
     Wd = R.W(d)
     n = 0
     for second, g2 in enumerate(alpha):
-        S1c, S2c = _program_S([g1], d), _program_S([g2], d)
+        S1c, S2c = _program_S([g1], d, ctx.seed), _program_S([g2], d, ctx.seed)
         S1 = (Wd.conj().T @ S1c @ Wd).real
         S2 = (Wd.conj().T @ S2c @ Wd).real
         for pos in (0, 1, 2):
